@@ -31,6 +31,8 @@ type Solver struct {
 	log    *os.File // optional SMT-LIB transcript of leaf obligations
 	tmo    int      // per-query timeout ms
 	fpMode bool     // the short floating-point timeout is in force
+	alt    *Solver  // cvc5, started on demand for queries with floating-point terms (z3 needs minutes for them)
+	isAlt  bool
 	xcap   int      // cross-solver sample: at most this many queries are kept
 	xlog   []xquery
 	xseen  int
@@ -57,6 +59,16 @@ func collectVars(t *Term, seen map[string]int) {
 
 func (s *Solver) record(pc []*Term, extra *Term, r satResult) {
 	if s.xcap == 0 || r == resUnknown {
+		return
+	}
+	// floating-point queries are decided by cvc5 and not cross-checked: both z3
+	// versions need minutes for them
+	for _, t := range pc {
+		if t.fp {
+			return
+		}
+	}
+	if extra != nil && extra.fp {
 		return
 	}
 	s.xseen++
@@ -116,11 +128,19 @@ func (s *Solver) start() {
 	s.stack = nil
 	s.fpMode = false
 	if strings.Contains(s.bin, "cvc5") {
-		s.in.WriteString("(set-logic QF_BV)\n")
+		if s.isAlt {
+			s.in.WriteString("(set-logic ALL)\n")
+		} else {
+			s.in.WriteString("(set-logic QF_BV)\n")
+		}
 	}
 }
 
 func (s *Solver) close() {
+	if s.alt != nil {
+		s.alt.close()
+		s.alt = nil
+	}
 	if s.cmd != nil {
 		s.inRaw.Close()
 		s.cmd.Process.Kill()
@@ -216,6 +236,28 @@ func (s *Solver) readLine() string {
 }
 
 // check decides pc ∧ extra (extra may be nil).
+// fpAlt: the solver for a query with floating-point terms, nil if this one will do.
+func (s *Solver) fpAlt(ts []*Term) *Solver {
+	if s.isAlt || strings.Contains(s.bin, "cvc5") {
+		return nil
+	}
+	fp := false
+	for _, t := range ts {
+		if t != nil && t.fp {
+			fp = true
+			break
+		}
+	}
+	if !fp {
+		return nil
+	}
+	if s.alt == nil {
+		s.alt = &Solver{bin: "cvc5", tmo: s.tmo, isAlt: true}
+		s.alt.start()
+	}
+	return s.alt
+}
+
 // fpTimeout: floating-point queries get a short limit (bit-blasted multipliers and
 // rounding either answer at once or not at all); an unknown is an inconclusive path.
 func (s *Solver) fpTimeout(ts []*Term) {
@@ -242,6 +284,20 @@ func (s *Solver) check(pc []*Term, extra *Term) satResult {
 	all := pc
 	if extra != nil {
 		all = append(append([]*Term{}, pc...), extra)
+	}
+	if a := s.fpAlt(all); a != nil {
+		r := a.check(pc, extra)
+		s.dur += time.Since(t0)
+		switch r {
+		case resSat:
+			s.nSat++
+		case resUnsat:
+			s.nUnsat++
+		default:
+			s.nUnk++
+		}
+		s.record(pc, extra, r)
+		return r
 	}
 	s.declareAll(all...)
 	s.sync(pc)
@@ -289,6 +345,20 @@ func (s *Solver) model(pc []*Term, extra *Term, vars []*Term) (map[string]uint64
 	all := append(append([]*Term{}, pc...), vars...)
 	if extra != nil {
 		all = append(all, extra)
+	}
+	if a := s.fpAlt(all); a != nil {
+		m, r := a.model(pc, extra, vars)
+		s.dur += time.Since(t0)
+		switch r {
+		case resSat:
+			s.nSat++
+		case resUnsat:
+			s.nUnsat++
+		default:
+			s.nUnk++
+		}
+		s.record(pc, extra, r)
+		return m, r
 	}
 	s.declareAll(all...)
 	s.sync(pc)
